@@ -38,31 +38,19 @@ theorem C11_no_data_race {cr : Nat} {ρ : Nat → Nat} {tbl : List Access} {es :
   · subst h; rw [hi] at hj; cases hj; exact absurd rfl hne
   · exact Or.inr (discipline_orders hrf hv hc h hj hi (Ne.symm hne) ⟨hcf.1.symm, hcf.2.symm⟩)
 
-/-- the writer/reader pair of one RWMutex on two goroutines, after publication -/
-def exW : Access := ⟨0, .W, 0, [(0, .excl)], .live, 0, [], []⟩
-def exR : Access := ⟨0, .R, 1, [(0, .shared)], .live, 0, [], []⟩
-def exLocked : List XEv :=
-  [.pub 1, .get 2, .acq 1 0 .excl, .acc 1 exW, .rel 1 0 .excl, .acq 2 0 .shared, .acc 2 exR]
-
-/-- the hypotheses are satisfiable (a valid, conforming execution of a race-free table with a conflicting
-pair on two goroutines), and the conclusion is the expected chain -/
+/-- the hypotheses are satisfiable (`exLocked`: a valid, conforming execution of a race-free table with a
+conflicting pair on two goroutines — writer then reader of one RWMutex after publication), and the
+conclusion is the expected chain -/
 example : HB exLocked 3 6 :=
   C11_discipline_orders_every_execution (cr := 1) (ρ := fun _ => 0) (tbl := [exW, exR])
     (sf := ⟨[(2, 0, .shared)], [], true, [2]⟩) (t₁ := 1) (t₂ := 2) (a := exW) (b := exR)
     (by decide) (by decide) (conformsB_sound (by decide)) (by decide) (by decide) (by decide) (by decide)
     ⟨rfl, Or.inl rfl⟩
 
-/-- constructor phase, channel-close edge and a single-goroutine role in one execution: the creator
+/-- (`exMixed`) constructor phase, channel-close edge and a single-goroutine role in one execution: the creator
 writes before publishing, then closes channel 7 after its last write; goroutine 2 reads after observing
 the close and leaves; the creator joins and writes again (constructor phase after the join); role 5 rows
 all run on goroutine 1 -/
-def exInit : Access := ⟨0, .W, 0, [], .init, 0, [], []⟩
-def exRel : Access := ⟨0, .W, 1, [], .live, 5, [7], []⟩
-def exAcq : Access := ⟨0, .R, 2, [], .live, 0, [], [7]⟩
-def exMixed : List XEv :=
-  [.acc 1 exInit, .pub 1, .get 2, .acc 1 exRel, .acc 1 exRel, .close 1 7, .obs 2 7, .acc 2 exAcq,
-   .leave 2, .join 1, .acc 1 exInit]
-
 example : HB exMixed 0 7 ∧ HB exMixed 4 7 ∧ HB exMixed 7 10 :=
   have hrf : raceFree [exInit, exRel, exAcq] := by decide
   have hv : xrun 1 XState.init exMixed = some ⟨[], [7], false, []⟩ := by decide
@@ -88,10 +76,6 @@ theorem C11_hb_needs_synchronisation {es : List XEv} {i j : Nat} {e₁ e₂ : XE
 /-- **The discipline is needed**: the pre-fix `genID` row (a write under `RLock`) has a conforming
 execution with a data race — two goroutines hold the read lock together and write; the two accesses are
 not ordered by happens-before in either direction. -/
-def exShW : Access := ⟨0, .W, 0, [(0, .shared)], .live, 0, [], []⟩
-def exRacy : List XEv :=
-  [.pub 1, .get 2, .acq 1 0 .shared, .acq 2 0 .shared, .acc 1 exShW, .acc 2 exShW]
-
 theorem C11_shared_write_execution_races :
     (∃ sf, xrun 1 XState.init exRacy = some sf) ∧ Conforms 1 (fun _ => 0) [exShW] exRacy
     ∧ exRacy[4]? = some (XEv.acc 1 exShW) ∧ exRacy[5]? = some (XEv.acc 2 exShW) ∧ conflict exShW exShW
@@ -142,35 +126,45 @@ example : conformsB 1 (fun _ => 0) [exW] [.acc 1 exW] = false := by decide
 
 /-- **The discipline is necessary, pair by pair.**  For ANY two rows that `ordered` does not order
 (neither is constructor-phase, no common non-zero role, no common lock with an exclusive side, no close
-edge), each naming a lock at most once and neither relying on an observed close: there is an execution of
-the semantics that does everything the two rows say — goroutine 1 performs `a` holding `a`'s locks,
-goroutine 2 performs `b` holding `b`'s locks — in which the two accesses are not ordered by
-happens-before in either direction.  (The rows' `relAfter` lists are unrestricted.) -/
+edge), each naming a lock at most once and listing no channel both as closed after it and as observed
+closed before it (such a row has no execution at all): there is an execution of the semantics that does
+everything the two rows say — a third goroutine closes the channels the rows want observed, goroutine 1
+observes its channels and performs `a` holding `a`'s locks, goroutine 2 likewise performs `b` — in which
+the two accesses are not ordered by happens-before in either direction. -/
 theorem C11_unordered_pair_has_racy_execution {a b : Access} (hno : ¬ ordered a b)
-    (hqa : a.acqBefore = []) (hqb : b.acqBefore = []) (hda : (a.held.map Prod.fst).Nodup)
-    (hdb : (b.held.map Prod.fst).Nodup) :
+    (hwa : WfRow a) (hwb : WfRow b) :
     ∃ (ρ : Nat → Nat) (es : List XEv) (sf : XState) (i j : Nat), xrun 1 XState.init es = some sf
       ∧ Conforms 1 ρ [a, b] es ∧ es[i]? = some (XEv.acc 1 a) ∧ es[j]? = some (XEv.acc 2 b)
       ∧ ¬ HB es i j ∧ ¬ HB es j i := by
-  obtain ⟨ρ, sf, h⟩ := unordered_pair_races hno hqa hqb hda hdb
+  obtain ⟨ρ, sf, h⟩ := unordered_pair_races hno hwa.1 hwb.1 hwa.2 hwb.2
   exact ⟨ρ, racyExec a b, sf, _, _, h⟩
 
 /-- the hypotheses are satisfiable: a reader under `RLock` of one mutex and a writer under `Lock` of
-ANOTHER mutex (the shape of a write guarded by the wrong lock) -/
-example : ¬ ordered exR ⟨0, .W, 3, [(1, .excl)], .live, 0, [9], []⟩ ∧ exR.acqBefore = []
-    ∧ (exR.held.map Prod.fst).Nodup :=
-  ⟨fun h => absurd ((orderedB_iff _ _).mpr h) (by decide), rfl, by decide⟩
+ANOTHER mutex (the shape of a write guarded by the wrong lock) that has waited for channel 8 and closes
+channel 9 afterwards -/
+example : ¬ ordered exR ⟨0, .W, 3, [(1, .excl)], .live, 0, [9], [8]⟩ ∧ WfRow exR
+    ∧ WfRow ⟨0, .W, 3, [(1, .excl)], .live, 0, [9], [8]⟩ :=
+  ⟨fun h => absurd ((orderedB_iff _ _).mpr h) (by decide), (wfRowB_iff _).mp (by decide),
+    (wfRowB_iff _).mp (by decide)⟩
 
-/-- **Lock discipline ⇔ data-race freedom of the modelled executions**, for every table whose rows name
-each lock once and do not rely on observed closes: the table satisfies the discipline if and only if in
-every execution that conforms to it any two conflicting accesses by different goroutines are ordered by
-happens-before.  (⇒ holds for every table: `C11_no_data_race`.) -/
-theorem C11_discipline_iff_no_race (tbl : List Access)
-    (hwf : ∀ a ∈ tbl, a.acqBefore = [] ∧ (a.held.map Prod.fst).Nodup) : raceFree tbl ↔ NoRace tbl :=
+/-- …and the side condition excludes only rows that cannot be executed (closed after, observed before) and
+rows naming a lock twice -/
+example : ¬ WfRow ⟨0, .W, 3, [], .live, 0, [9], [9]⟩ ∧ ¬ WfRow ⟨0, .W, 3, [(1, .excl), (1, .shared)], .live, 0, [], []⟩ :=
+  ⟨fun h => absurd ((wfRowB_iff _).mpr h) (by decide), fun h => absurd ((wfRowB_iff _).mpr h) (by decide)⟩
+
+/-- **Lock discipline ⇔ data-race freedom of the modelled executions**, for every table of well-formed
+rows (each lock named once, no channel both closed after and observed before the same row): the table
+satisfies the discipline if and only if in every execution that conforms to it any two conflicting
+accesses by different goroutines are ordered by happens-before.  (⇒ holds for every table:
+`C11_no_data_race`.) -/
+theorem C11_discipline_iff_no_race (tbl : List Access) (hwf : ∀ a ∈ tbl, WfRow a) : raceFree tbl ↔ NoRace tbl :=
   ⟨fun hrf _ _ _ _ hv hc _ _ _ _ _ _ hi hj hne hcf => C11_no_data_race hrf hv hc hi hj hne hcf,
    raceFree_of_noRace hwf⟩
 
 /-- the side condition is satisfiable by a table with a reader/writer pair under one RWMutex -/
-example : ∀ a ∈ [exW, exR], a.acqBefore = [] ∧ (a.held.map Prod.fst).Nodup := by decide
+example : ∀ a ∈ [exW, exR, exRel, exAcq], WfRow a := by
+  intro a ha
+  simp only [List.mem_cons, List.not_mem_nil, or_false] at ha
+  rcases ha with rfl | rfl | rfl | rfl <;> exact (wfRowB_iff _).mp (by decide)
 
 end ScVerif.C11
